@@ -53,6 +53,13 @@ def run_property(pid: str, tier: str, repo: str):
         if scope is not None and not scope(inst):
             continue
         instances.append(inst)
+    # one instance per (rule, construct): the same construct seen through several activations / finally copies
+    merged = {}
+    for inst in instances:
+        k = (inst.rule, inst.construct)
+        if k not in merged or (merged[k].verdict == 'PASS' and inst.verdict == 'VIOLATION'):
+            merged[k] = inst
+    instances = list(merged.values())
     # floors: a rule that matches fewer instances than confirmed by hand passes vacuously -> undecided
     for rule_id, floor in spec.floors.items():
         n = sum(1 for i in instances if i.rule == rule_id)
